@@ -610,6 +610,20 @@ def getitem(eng, st, obj, k, node):
                 yield st, ExcVal(KeyError, (k,), eng.where(st, node))
             return
         # symbolic key against concrete keys
+        vals = list(c.items.values())
+        if vals and all(v is vals[0] for v in vals):
+            conds = []
+            for kk in c.items:
+                r = equal(eng, st, k, kk)
+                if r is True:
+                    conds = [z3.BoolVal(True)]
+                    break
+                if r is not False and r is not None:
+                    conds.append(zbool(r))
+            anyk = z3.Or(conds) if conds else z3.BoolVal(False)
+            for s, ok in eng.branch(st, anyk, f"key@{eng.line(st, node)}"):
+                yield s, (vals[0] if ok else ExcVal(KeyError, (k,), eng.where(s, node)))
+            return
         rest = []
         for kk, vv in c.items.items():
             r = equal(eng, st, k, kk)
@@ -910,6 +924,10 @@ def container_call(eng, st, target, name, args, kwargs, node=None):
         if name == "copy":
             yield st, st.alloc(c, "dict")
             return
+        if name == "clear":
+            upd(st, SMap.empty(c.tk, c.tv, c.keys is not None))
+            yield st, None
+            return
         raise Unsupported(f"dict method {name}")
     # ---- sets
     if isinstance(c, SSet):
@@ -1180,6 +1198,8 @@ def _isinstance(eng, st, args, kw, node):
 
 
 def isinstance_value(eng, st, v, clss):
+    clss = tuple(getattr(c, "__origin__", None) or c for c in clss)   # typing.List -> list, ...
+
     def sub(pc):
         return any(inspect.isclass(c) and issubclass(pc, c) for c in clss)
     if isinstance(v, (bool, SBool)):
@@ -1583,7 +1603,7 @@ def contains(eng, st, cont, x, node=None):  # noqa: F811
                 if r is True:
                     yield st, True
                     return
-                if r not in (False, None):
+                if r is not False and r is not None:
                     terms.append(r.z)
             yield st, (SBool(z3.Or(terms)) if terms else False)
         else:
@@ -1914,6 +1934,7 @@ def _sym_comprehension(eng, st, node, kind, si, elt, saved, restore):
     probe = st.fork()
     probe.assume(j.z >= 0, j.z < seq.n)
     nobl = len(probe.obls)
+    base = len(probe.pc)
     res = []
     for s1, out in eng.assign(g.target, seq.at(j), probe):
         if out is not None:
@@ -1933,11 +1954,25 @@ def _sym_comprehension(eng, st, node, kind, si, elt, saved, restore):
         for s2, cs in cur:
             for s3, v in eng.ev(elt, s2):
                 res.append((s3, cs, v))
-    if len(res) != 1:
-        raise Unsupported(f"comprehension body over symbolic sequence forks ({len(res)} paths)")
-    s3, cs, v = res[0]
-    if isinstance(v, ExcVal) or len(s3.obls) != nobl or len(s3.pc) != len(probe.pc):
-        raise Unsupported("comprehension body over symbolic sequence is not a single pure path")
+    normal = [r for r in res if not isinstance(r[2], ExcVal)]
+    excs = [r for r in res if isinstance(r[2], ExcVal)]
+    if len(normal) != 1:
+        raise Unsupported(f"comprehension body over symbolic sequence forks ({len(normal)} normal paths)")
+    s3, cs, v = normal[0]
+    if len(s3.obls) != nobl or any(len(r[0].obls) != nobl for r in excs):
+        raise Unsupported("comprehension body over symbolic sequence raises obligations")
+    rng = z3.And(0 <= j.z, j.z < seq.n)
+    if excs or len(s3.pc) != base:
+        # element j evaluates normally iff ok(j); the comprehension raises iff some element does
+        ok = z3.And(list(s3.pc[base:])) if len(s3.pc) > base else z3.BoolVal(True)
+        for (se, ce, ve) in excs:
+            bad = z3.And(list(se.pc[base:]) + list(ce)) if (len(se.pc) > base or ce) else z3.BoolVal(True)
+            sx = st.fork()
+            sx.assume(z3.Exists([j.z], z3.And(rng, bad)))
+            restore(sx, saved)
+            if eng.feasible(sx, z3.Exists([j.z], z3.And(rng, bad))) or True:
+                yield sx.note("comp:raise"), ve
+        st.assume(z3.ForAll([j.z], z3.Implies(rng, ok)))
     restore(st, saved)
     cond = z3.And(cs) if cs else None
     if kind == "gen":
